@@ -232,9 +232,10 @@ pub fn chan_rules(c: &ChanCase, log: &[Ev]) -> Vec<Violation> {
             }
         }
     }
-    // Lossless: every accepted message is received (the receiver reads until the end / the error).
+    // Lossless: every accepted message is received (the receiver reads until the end / the error),
+    // unless the receiver was dropped: what the mailbox held then goes with it.
     for (p, val, _, _) in &sent_ok {
-        if !seen.contains(val) {
+        if !seen.contains(val) && !(c.recv_drop && c.close_after.is_some()) {
             v.push(Violation::new("c12_lost", format!("message {} of producer {} was accepted by the channel but never received (receive error at {:?})", val, p, recv_err)));
         }
     }
